@@ -39,7 +39,14 @@ pub proof fn lemma_wsum_affine(s: Seq<R>, a: real, b: real)
 		let n = s.len() as int;
 		let (t1, t, nr, x, w) = (tri(n - 1) as real, tri(n) as real, n as real, s.last()@, wsum(s.drop_last()));
 		assert(t == t1 + nr);
-		assert(a * w + t1 * b + nr * (a * x + b) == a * (w + nr * x) + t * b) by(nonlinear_arith) requires t == t1 + nr;
+		// split into single distributions (one large nonlinear query was unstable)
+		let ax = a * x;
+		let nx = nr * x;
+		assert(nr * (ax + b) == nr * ax + nr * b) by(nonlinear_arith);
+		assert(a * (w + nx) == a * w + a * nx) by(nonlinear_arith);
+		assert(a * nx == nr * ax) by(nonlinear_arith) requires nx == nr * x, ax == a * x;
+		assert(t * b == t1 * b + nr * b) by(nonlinear_arith) requires t == t1 + nr;
+		assert(a * w + t1 * b + nr * (a * x + b) == a * (w + nr * x) + t * b);
 	}
 }
 pub proof fn lemma_sum_plus(s: Seq<R>, t: Seq<R>)
